@@ -20,8 +20,10 @@ import (
 )
 
 type cfg struct {
-	places int
-	mult   int64
+	places    int   // k of Dk: the harness' own view of the configuration (independent of the library)
+	mult      int64 // 10^k, computed here (independent of the library)
+	libPlaces func() (int, int)
+	libMult   func() (int64, string)
 	run64  func(op string, a []string) string
 	run128 func(op string, a []string) string
 	flt64  func(op string, arg string) string
@@ -33,11 +35,22 @@ type cfg struct {
 var cfgs = map[string]*cfg{}
 
 func register[T fixed.Dx](name string) {
-	var t T
+	k := hx.Atoi(name)
+	mult := int64(1)
+	for i := 0; i < k; i++ {
+		mult *= 10
+	}
 	cfgs[name] = &cfg{
-		places: t.Places(), mult: t.Multiplier(),
-		run64: run64[T], run128: run128[T], flt64: float64Oracle[T], flt128: float128Oracle[T],
-		fm64: float64Model[T], fm128: float128Model[T],
+		places: k, mult: mult,
+		libPlaces: func() (int, int) { return f64.MaxDecimalDigits[T](), f128.MaxDecimalDigits[T]() },
+		libMult: func() (int64, string) {
+			return f64.Multiplier[T](), i128Big(f128.VerifC03Raw(f128.Multiplier[T]())).String()
+		},
+		run64:  func(op string, a []string) string { return run64[T](k, op, a) },
+		run128: func(op string, a []string) string { return run128[T](k, op, a) },
+		flt64:  func(op, arg string) string { return float64Oracle[T](mult, op, arg) },
+		flt128: func(op, arg string) string { return float128Oracle[T](mult, op, arg) },
+		fm64:   float64Model[T], fm128: float128Model[T],
 	}
 }
 
@@ -81,11 +94,11 @@ func toI128(s string) num.Int128 {
 	v.Mod(v, two128)
 	hi := new(big.Int).Rsh(v, 64).Uint64()
 	lo := new(big.Int).And(v, mask64).Uint64()
-	return num.Int128FromComponents(hi, lo)
+	return num.VerifC03FromWords(hi, lo)
 }
 
 func i128Big(i num.Int128) *big.Int {
-	hi, lo := i.Components()
+	hi, lo := num.VerifC03Words(i)
 	v := new(big.Int).SetUint64(hi)
 	v.Lsh(v, 64)
 	v.Or(v, new(big.Int).SetUint64(lo))
@@ -97,9 +110,22 @@ func i128Big(i num.Int128) *big.Int {
 
 func b2s(b bool) string { return strconv.FormatBool(b) }
 
+// Named types with the underlying machine kinds: xmath.Numeric admits them (~int8 …), and From / As must treat them by
+// kind, not by identity of the type.
+type (
+	myInt8    int8
+	myInt64   int64
+	myUint8   uint8
+	myUint    uint
+	myUint64  uint64
+	myUintptr uintptr
+	myFloat64 float64
+	myFloat32 float32
+)
+
 // ---------------------------------------------------------------------------------------------------- f64
 
-func run64[T fixed.Dx](op string, a []string) string {
+func run64[T fixed.Dx](k int, op string, a []string) string {
 	p := func(i int) f64.Int[T] {
 		v, err := strconv.ParseInt(a[i], 10, 64)
 		if err != nil {
@@ -152,6 +178,10 @@ func run64[T fixed.Dx](op string, a []string) string {
 		return strconv.Itoa(f64.MaxDecimalDigits[T]())
 	case "maxsafe":
 		return o(f64.MaxSafeMultiply[T]())
+	case "maximum": // the exported constants f64.Max / f64.Min
+		return strconv.FormatInt(f64.Max, 10)
+	case "minimum":
+		return strconv.FormatInt(f64.Min, 10)
 	case "from":
 		return o(from64[T](a[0], a[1]))
 	case "as":
@@ -160,9 +190,18 @@ func run64[T fixed.Dx](op string, a []string) string {
 		fr := f64.Fraction[T]{Numerator: p(0), Denominator: p(1)}
 		fr.Normalize()
 		return o(fr.Numerator) + " " + o(fr.Denominator)
-	case "fval":
+	case "fval": // the receiver must be left alone (value receiver)
 		fr := f64.Fraction[T]{Numerator: p(0), Denominator: p(1)}
-		return o(fr.Value())
+		return o(fr.Value()) + " " + o(fr.Numerator) + " " + o(fr.Denominator)
+	case "fstr":
+		fr := f64.Fraction[T]{Numerator: p(0), Denominator: p(1)}
+		j, err := fr.MarshalJSON()
+		if err != nil {
+			return "err"
+		}
+		return fr.String() + " " + fr.StringWithSign() + " " + string(j) + " " + o(fr.Numerator) + " " + o(fr.Denominator)
+	case "fnew", "fjson", "fjsonbad":
+		return frac64[T](k, op, a)
 	}
 	return "bad-op"
 }
@@ -207,6 +246,18 @@ func from64[T fixed.Dx](kind, s string) f64.Int[T] {
 		return f64.From[T](uint(uInt(s, 64)))
 	case "uintptr":
 		return f64.From[T](uintptr(uInt(s, 64)))
+	case "myint8":
+		return f64.From[T](myInt8(sInt(s, 8)))
+	case "myint64":
+		return f64.From[T](myInt64(sInt(s, 64)))
+	case "myuint8":
+		return f64.From[T](myUint8(uInt(s, 8)))
+	case "myuint":
+		return f64.From[T](myUint(uInt(s, 64)))
+	case "myuint64":
+		return f64.From[T](myUint64(uInt(s, 64)))
+	case "myuintptr":
+		return f64.From[T](myUintptr(uInt(s, 64)))
 	}
 	panic("bad kind " + kind)
 }
@@ -235,13 +286,25 @@ func as64[T fixed.Dx](kind string, f f64.Int[T]) string {
 		return strconv.FormatUint(uint64(f64.As[T, uint](f)), 10)
 	case "uintptr":
 		return strconv.FormatUint(uint64(f64.As[T, uintptr](f)), 10)
+	case "myint8":
+		return strconv.FormatInt(int64(f64.As[T, myInt8](f)), 10)
+	case "myint64":
+		return strconv.FormatInt(int64(f64.As[T, myInt64](f)), 10)
+	case "myuint8":
+		return strconv.FormatUint(uint64(f64.As[T, myUint8](f)), 10)
+	case "myuint":
+		return strconv.FormatUint(uint64(f64.As[T, myUint](f)), 10)
+	case "myuint64":
+		return strconv.FormatUint(uint64(f64.As[T, myUint64](f)), 10)
+	case "myuintptr":
+		return strconv.FormatUint(uint64(f64.As[T, myUintptr](f)), 10)
 	}
 	panic("bad kind " + kind)
 }
 
 // ---------------------------------------------------------------------------------------------------- f128
 
-func run128[T fixed.Dx](op string, a []string) string {
+func run128[T fixed.Dx](k int, op string, a []string) string {
 	p := func(i int) f128.Int[T] { return f128.VerifC03FromRaw[T](toI128(a[i])) }
 	o := func(v f128.Int[T]) string { return i128Big(f128.VerifC03Raw(v)).String() }
 	switch op {
@@ -305,7 +368,16 @@ func run128[T fixed.Dx](op string, a []string) string {
 		return o(fr.Numerator) + " " + o(fr.Denominator)
 	case "fval":
 		fr := f128.Fraction[T]{Numerator: p(0), Denominator: p(1)}
-		return o(fr.Value())
+		return o(fr.Value()) + " " + o(fr.Numerator) + " " + o(fr.Denominator)
+	case "fstr":
+		fr := f128.Fraction[T]{Numerator: p(0), Denominator: p(1)}
+		j, err := fr.MarshalJSON()
+		if err != nil {
+			return "err"
+		}
+		return fr.String() + " " + fr.StringWithSign() + " " + string(j) + " " + o(fr.Numerator) + " " + o(fr.Denominator)
+	case "fnew", "fjson", "fjsonbad":
+		return frac128[T](k, op, a)
 	}
 	return "bad-op"
 }
@@ -334,6 +406,18 @@ func from128[T fixed.Dx](kind, s string) f128.Int[T] {
 		return f128.From[T](uint(uInt(s, 64)))
 	case "uintptr":
 		return f128.From[T](uintptr(uInt(s, 64)))
+	case "myint8":
+		return f128.From[T](myInt8(sInt(s, 8)))
+	case "myint64":
+		return f128.From[T](myInt64(sInt(s, 64)))
+	case "myuint8":
+		return f128.From[T](myUint8(uInt(s, 8)))
+	case "myuint":
+		return f128.From[T](myUint(uInt(s, 64)))
+	case "myuint64":
+		return f128.From[T](myUint64(uInt(s, 64)))
+	case "myuintptr":
+		return f128.From[T](myUintptr(uInt(s, 64)))
 	}
 	panic("bad kind " + kind)
 }
@@ -362,6 +446,18 @@ func as128[T fixed.Dx](kind string, f f128.Int[T]) string {
 		return strconv.FormatUint(uint64(f128.As[T, uint](f)), 10)
 	case "uintptr":
 		return strconv.FormatUint(uint64(f128.As[T, uintptr](f)), 10)
+	case "myint8":
+		return strconv.FormatInt(int64(f128.As[T, myInt8](f)), 10)
+	case "myint64":
+		return strconv.FormatInt(int64(f128.As[T, myInt64](f)), 10)
+	case "myuint8":
+		return strconv.FormatUint(uint64(f128.As[T, myUint8](f)), 10)
+	case "myuint":
+		return strconv.FormatUint(uint64(f128.As[T, myUint](f)), 10)
+	case "myuint64":
+		return strconv.FormatUint(uint64(f128.As[T, myUint64](f)), 10)
+	case "myuintptr":
+		return strconv.FormatUint(uint64(f128.As[T, myUintptr](f)), 10)
 	}
 	panic("bad kind " + kind)
 }
@@ -381,9 +477,9 @@ func (area) Run(line string) string {
 	}
 	switch f[0] {
 	case "f64":
-		return c.run64(f[2], f[3:])
+		return guarded(func() string { return c.run64(f[2], f[3:]) })
 	case "f128":
-		return c.run128(f[2], f[3:])
+		return guarded(func() string { return c.run128(f[2], f[3:]) })
 	}
 	return "bad-op"
 }
@@ -399,16 +495,22 @@ func (floatArea) Run(line string) string {
 	if !ok {
 		return "FAIL bad-op"
 	}
+	var out string
 	switch f[0] {
 	case "f64":
-		return c.flt64(f[2], f[3])
+		out = guarded(func() string { return c.flt64(f[2], f[3]) })
 	case "f128":
-		return c.flt128(f[2], f[3])
+		out = guarded(func() string { return c.flt128(f[2], f[3]) })
+	default:
+		return "FAIL bad-op"
 	}
-	return "FAIL bad-op"
+	if out == "hang" || out == "hang-skipped" {
+		return "FAIL " + out
+	}
+	return out
 }
 
 func main() {
 	hx.Main(map[string]hx.Area{"fx": area{wrap: false}, "fxwrap": area{wrap: true}, "fxfloat": floatArea{},
-		"fxfloatm": floatModelArea{}})
+		"fxfloatm": floatModelArea{}, "fxcfg": cfgArea{}})
 }
